@@ -204,6 +204,39 @@ func DuplicateValue(in r.Element) r.Element {
 	return in
 }
 
+// containsElement - whether `target` is `root` itself or one of the items that `root`
+// (an array or a hashmap) holds, directly or indirectly
+func containsElement(root r.Element, target r.Element) bool {
+	if root == target {
+		return true
+	}
+	switch v := root.(type) {
+	case *Array:
+		for _, item := range v.value {
+			if containsElement(item, target) {
+				return true
+			}
+		}
+	case *HashMap:
+		for _, item := range v.value {
+			if containsElement(item, target) {
+				return true
+			}
+		}
+	}
+	return false
+}
+
+// detachFrom - the value to be stored when `item` is put into `container`: `item` itself, or
+// a copy of it when `item` is (or holds) `container` - an array or hashmap never contains itself,
+// otherwise displaying, copying or comparing it would not terminate.
+func detachFrom(container r.Element, item r.Element) r.Element {
+	if containsElement(item, container) {
+		return DuplicateValue(item)
+	}
+	return item
+}
+
 func ThrowException(message string) *zerr.Signal {
 	expValue := NewException(message)
 	return zerr.NewExceptionSignal(expValue)
